@@ -310,3 +310,27 @@ def write_replay(pid, payload):
     with open(os.path.join(d, "case.json"), "w") as f:
         json.dump(payload, f, indent=1, default=str)
     return d
+
+
+def coqchk_all(key):
+    """thorough tier: the independent checker on every compiled file (cached per tree)"""
+    cpath = os.path.join(BUILD, "cache", "coqchk-%s.json" % key)
+    if os.path.exists(cpath):
+        return json.load(open(cpath))
+    with locked("coqchk"):
+        if os.path.exists(cpath):
+            return json.load(open(cpath))
+        mods = []
+        for l in open(os.path.join(COQ, "_CoqProject")):
+            l = l.strip()
+            if l.endswith(".v"):
+                mods.append("Moq." + l[:-2].replace("/", "."))
+        t0 = time.time()
+        p = sh(["coqchk", "-silent", "-o", "-Q", ".", "Moq"] + mods, cwd=COQ, timeout=3600)
+        out = p.stdout + p.stderr
+        m = re.search(r"\* Axioms:(.*?)\n\s*\n\* Constants", out, re.S)
+        axioms = " ".join(m.group(1).split()) if m else "?"
+        res = dict(rc=p.returncode, axioms=axioms, seconds=round(time.time() - t0, 1), tail=out[-800:])
+        os.makedirs(os.path.dirname(cpath), exist_ok=True)
+        json.dump(res, open(cpath, "w"))
+        return res
